@@ -4,7 +4,7 @@ sys.path.insert(0, os.path.dirname(os.path.dirname(os.path.abspath(__file__))))
 import vlib
 
 PID = "C02"
-LEAN_MODULES = ["QbiceVerif.Props.C02", "QbiceVerif.Props.C02Walk"]
+LEAN_MODULES = ["QbiceVerif.Props.C02", "QbiceVerif.Props.C02Walk", "QbiceVerif.Props.C02Join"]
 DRIVER = "drv_lts"
 HARNESS_BIN = "conc"
 HARNESS_FEATURES = ""
@@ -34,6 +34,10 @@ PARTIAL = [
     "the statement is refuted: walk_holding_guard_can_deadlock (W = 1, 2 by evaluation; _W4; _any_W: every W >= 1 with one dropper per worker, proved) and reproduced on the real engine (corpus/C02-F60).",
 ]
 ASSUMPTIONS = [
+    "CJ (Model/ChunkJoin.lean, Props/C02Join.lean): the fold over the chunk results of an unordered group is isolated from the sequential model "
+    "(Model/Engine.lean repairQuery accumulates `needTfc` the same way, one member after the other); chunk_join_order_independent covers runs "
+    "in which no chunk asks for a recompute (a recompute discards the flag); that the real loop is the OR-ing fold is checked by the multi-epoch "
+    "concurrent histories (a wrong flag shows as a stale value one edit later), not proved",
     "tokio::sync::Notify::notify_waiters completes exactly the Notified futures created before the call, whether polled or not "
     "(tokio's documented behaviour); scc::HashMap entry_sync/read_sync/remove_sync are linearizable per key and hold the bucket lock "
     "for the whole closure / entry lifetime",
@@ -77,7 +81,11 @@ RULE = ("per shard (own seed): (f6) the forced 2-thread upgrade race on the real
         "every second generated case is the read-back sub-family: 3-6 groups on the small tier, droppers at the low indices of the edge vector that read a "
         "slow helper of the firewall once the selector changed (their publications follow the helper's, i.e. meet the firewall's walk), 2-8 workers, and a "
         "third round in the SAME epoch reading every caller back (sig C02:stale-readback-same-epoch); "
-        "oracles: from-scratch values, overlap, executed-twice, OS-thread watchdog (sig C02:hang-wide-walk); (tset) sequential op sequences "
+        "oracles: from-scratch values, overlap, executed-twice, OS-thread watchdog (sig C02:hang-wide-walk); (mepoch) MULTI-EPOCH concurrent histories: the "
+        "cases of eng::gen_layered (unordered aggregator over the selector chain) / gen_pjswitch / gen_program+gen_history with unordered groups, 4-9 "
+        "sessions, every round issued as one task per requested key plus 0-3 tasks on random non-input keys on 1/2/4/8 workers, EVERY round of every "
+        "epoch judged by the from-scratch oracle, executed-twice per epoch, overlap, watchdog (sigs C02:multi-epoch:stale-value / :exec-twice, "
+        "C02:hang-multi-epoch); (tset) sequential op sequences "
         "ins/rem/len/iter over a universe of 1..80 elements crossing the 32-element threshold, answered by implementation and model line by line, "
         "and 2-8 thread histories checked by an independent linearizability oracle (every third history: small tier, 1-4 threads removing/re-inserting "
         "low-index elements in a loop beside 1-3 threads iterating 6-30 times — an iteration must contain every element present during its whole interval, "
